@@ -60,6 +60,18 @@ def vectors(ctx):
                 for fn in fns:
                     add(fn, f, ["29", st, msb, val])
                 add(rng.choice(T29_FNS), f, ["29x", st, msb, val])
+            # the same field values against an all-ones and an all-zeros background (every other ME bit set / clear):
+            # "unaffected by the bits outside the field" at the two extremes a random background practically never reaches
+            for bg in (0, 1):
+                for val in range(1 << w):
+                    f = es(rng, 29)
+                    f = gen.set_bits(f, 38, 88, ((1 << 51) - 1) * bg)
+                    f = gen.set_bits(f, 38, 39, st)
+                    f = gen.set_bits(f, 32 + msb, 32 + lsb, val)
+                    if msb <= 7 <= lsb:
+                        f = gen.set_bits(f, 38, 39, st)
+                    for fn in fns:
+                        add(fn, f, ["29bg", bg, st, msb, val])
     for _ in range(ctx.pick(1500, 100000)):
         f = es(rng, 29)
         for fn in rng.sample(T29_FNS, 3) + ["nac_p", "sil"]:
